@@ -257,6 +257,7 @@ class FrameExecutor(AlgoExecutor):
             # the window is already cut at `now` by target.universe; an explicit upper bound beyond it reads nothing extra
             hi_eff = ite(hi <= u.hi, hi, u.hi) if rowsel.hi is not None else u.hi
             self.read_site(st, "universe.loc[lo:hi]", hi_eff, self.now_of(st, owner))
+            self.window_site(st, owner, lo, hi if rowsel.hi is not None else None)
             out.append((st, WindowV(owner, lo, hi_eff, sel)))
             return out
         d = self._num(st, rowsel)
@@ -270,6 +271,18 @@ class FrameExecutor(AlgoExecutor):
             self.read_site(s, "universe.loc[t]", d, self.now_of(s, owner))
             out.append((s, RowV(LabelSet(sel.mem, sel.ord, "universe.loc[t]"), lambda x, d=d: Num(ucell(t, d.r, x), ucell_nan(t, d.r, x), False))))
         return out
+
+    def window_site(self, st, owner, lo, hi):
+        """a data window target.universe.loc[lo:hi] was taken: when a window specification is installed (C15: windows of the
+        risk-based weighters), oblige its bounds to be the documented ones"""
+        spec = getattr(self, "window_spec", None)
+        if spec is None:
+            return
+        want_lo, want_hi = spec(st, owner)
+        fn = self.cur_func[-1].replace("bt.algos.", "")
+        self.window_sites = getattr(self, "window_sites", 0) + 1
+        st.oblige("%s/window-starts-at-now-minus-lag-minus-lookback" % fn, lo is not None and lo.eq(want_lo), kind="window", props=("C15",))
+        st.oblige("%s/window-ends-at-now-minus-lag" % fn, hi is not None and hi.eq(want_hi), kind="window", props=("C15",))
 
     def aux_loc(self, st, fr, i):
         tok = fr.token
@@ -319,6 +332,31 @@ class FrameExecutor(AlgoExecutor):
     # value-producing comprehension that filters a label list:  [s for s in xs if cond(s)]
     def expr_ListComp(self, e, st):
         g = e.generators[0] if len(e.generators) == 1 else None
+        if (g is not None and isinstance(g.target, ast.Tuple) and len(g.target.elts) == 2 and all(isinstance(t, ast.Name) for t in g.target.elts)
+                and isinstance(e.elt, ast.Name) and e.elt.id == g.target.elts[0].id):
+            out = []
+            for (s, xs) in self.eval(g.iter, st):
+                if isinstance(xs, _Raised):
+                    out.append((s, xs))
+                    continue
+                if not isinstance(xs, ChildItemsV):
+                    return AlgoExecutor.expr_ListComp(self, e, st)
+                xv = fresh_label("elt")
+                conds = []
+                for c in g.ifs:
+                    s2 = s.fork()
+                    s2.locals[g.target.elts[0].id] = StrV(xv)
+                    s2.locals[g.target.elts[1].id] = s2.heap.dict_at(xs.owner, "children", StrV(xv), "Node")
+                    conds.append(self.pure_cond(c, s2))
+                cf = And(*conds) if conds else True
+                ls = xs.ls
+
+                def mem(x, cf=cf, xv=xv, ls=ls):
+                    c = cf if isinstance(cf, bool) else z3.substitute(cf, (xv, x))
+                    return And(ls.mem(x), c)
+
+                out.append((s, ListLV(LabelSet(mem, ls.ord, "filtered children"))))
+            return out
         if g is not None and isinstance(g.target, ast.Name) and isinstance(e.elt, ast.Name) and e.elt.id == g.target.id:
             out = []
             for (s, xs) in self.eval(g.iter, st):
@@ -333,11 +371,7 @@ class FrameExecutor(AlgoExecutor):
                 for c in g.ifs:
                     s2 = s.fork()
                     s2.locals[g.target.id] = StrV(xv)
-                    rs = self.eval(c, s2)
-                    if len(rs) != 1 or isinstance(rs[0][1], _Raised):
-                        ok = False
-                        break
-                    conds.append(self.truth(s2, rs[0][1]))
+                    conds.append(self.pure_cond(c, s2))
                 if not ok:
                     self._undecided("comprehension filter with branching condition")
                 cf = And(*conds) if conds else True
@@ -350,6 +384,31 @@ class FrameExecutor(AlgoExecutor):
                 out.append((s, ListLV(LabelSet(mem, ls.ord, "filtered"))))
             return out
         return AlgoExecutor.expr_ListComp(self, e, st)
+
+    def pure_cond(self, c, s2):
+        """a side-effect-free filter condition as one formula (and/or/not are not short-circuit-forked)"""
+        if isinstance(c, ast.BoolOp):
+            parts = [self.pure_cond(v, s2) for v in c.values]
+            return And(*parts) if isinstance(c.op, ast.And) else Or(*parts)
+        if isinstance(c, ast.UnaryOp) and isinstance(c.op, ast.Not):
+            return Not(self.pure_cond(c.operand, s2))
+        rs = self.eval(c, s2)
+        if len(rs) != 1 or isinstance(rs[0][1], _Raised):
+            self._undecided("comprehension filter with branching condition")
+        return _zbb(self.truth(s2, rs[0][1]))
+
+    def call_special(self, st, f, e):
+        if f.name == "isinstance" and len(e.args) == 2 and isinstance(e.args[1], ast.Attribute) and isinstance(e.args[1].value, ast.Name) and e.args[1].value.id == "self" and e.args[1].attr not in self.prog.classes:
+            from .heap import cls_f
+
+            out = []
+            me = st.locals["self"]
+            for (s, obj) in self.eval(e.args[0], st):
+                if not isinstance(obj, RefV):
+                    self._undecided("isinstance(<non-node>, self.%s)" % e.args[1].attr)
+                out.append((s, types_sel(me.term, e.args[1].attr, cls_f(obj.term))))
+            return out
+        return AlgoExecutor.call_special(self, st, f, e)
 
     def expr_List(self, e, st):
         if not e.elts:
@@ -445,6 +504,10 @@ class FrameExecutor(AlgoExecutor):
             has = self.temp_has(st, t, key)
             tok = self._lst_token(t.owner, "%s_%s" % (t.which, key))
             dflt = pos[1] if len(pos) > 1 else None
+            from .heap import TupleV as _TupleV
+
+            if isinstance(dflt, _TupleV) and len(dflt.items) == 0:
+                dflt = ListLV(LabelSet(lambda x: False, lambda x: z3.IntVal(0), "()", n=Num.lift(0)))
             if isinstance(dflt, ListLV):
                 d = dflt.ls
                 return [(st, ListLV(LabelSet(lambda x: z3.If(has, lst_mem(tok, x), _zbb(d.mem(x))), lambda x: lst_ord(tok, x), "%s.get(%r)" % (t.which, key))))]
@@ -486,7 +549,7 @@ class FrameExecutor(AlgoExecutor):
     def ext_builtin(self, st, name, pos, kw):
         if name == "set" and len(pos) == 0:
             return [(st, ListLV(LabelSet(lambda x: False, lambda x: z3.IntVal(0), "set()", n=Num.lift(0))))]
-        if name == "list" and len(pos) == 1:
+        if name in ("list", "set", "tuple") and len(pos) == 1:
             v = pos[0]
             if isinstance(v, (IndexLV, ListLV)):
                 return [(st, ListLV(v.ls))]
@@ -634,6 +697,7 @@ def _d_call_value(self, st, f, pos, kw):
             return [(st, DictKeysV(d, f.name, st.heap.copy()))]
         if f.name == "copy":
             n = dsl.fresh_ref("dictcopy")
+            st.assume(n != d.ref)  # dict.copy() allocates: the result is a different object than the original
             has, val, vn = _dmaps(st.heap)
             st.heap.maps["dct#has"] = has.store(n, has.select(d.ref))
             st.heap.maps["dct#val"] = val.store(n, val.select(d.ref))
@@ -853,6 +917,18 @@ class LimitV(object):
 
 
 _old_load_attr3 = FrameExecutor.ext_load_attr
+child_name_order = z3.Function("child_name_order", dsl.Ref, S, I)
+def types_sel(me, attr, cls):
+    """isinstance(obj, self.<attr>) as an uninterpreted predicate of (self, obj's class)"""
+    return z3.Function("types_sel_" + attr, dsl.Ref, cls.sort(), z3.BoolSort())(me, cls)
+
+
+class ChildItemsV(object):
+    """node.children.items(): (name, child) pairs in insertion order"""
+
+    def __init__(self, owner, ls):
+        self.owner, self.ls = owner, ls
+
 
 
 def _k_load_attr(self, st, obj, attr):
@@ -860,6 +936,8 @@ def _k_load_attr(self, st, obj, attr):
 
     if isinstance(obj, _DictV) and obj.field == "children" and attr == "keys":
         return [(st, BoundFn("childkeys", "keys", recv=obj))]
+    if isinstance(obj, _DictV) and obj.field == "children" and attr == "items":
+        return [(st, BoundFn("childitems", "items", recv=obj))]
     if isinstance(obj, RefV) and attr == "limit" and obj.cls != "LimitDeltas":
         return [(st, st.heap.get(obj, "limit_f"))]
     if isinstance(obj, RefV) and obj.cls == "LimitDeltas" and attr == "limit":
@@ -877,11 +955,13 @@ _old_call_value3 = FrameExecutor.ext_call_value
 
 
 def _k_call_value(self, st, f, pos, kw):
-    if isinstance(f, BoundFn) and f.kind == "childkeys":
+    if isinstance(f, BoundFn) and f.kind in ("childkeys", "childitems"):
         owner = f.recv.owner
         h = st.heap
-        nameord = z3.Function("child_name_order", dsl.Ref, S, I)
-        return [(st, ListLV(LabelSet(lambda x, h=h: h.dict_has(owner, "children", StrV(x)), lambda x: nameord(owner.term, x), "children.keys()")))]
+        ls = LabelSet(lambda x, h=h: h.dict_has(owner, "children", StrV(x)), lambda x: child_name_order(owner.term, x), "children.keys()")
+        if f.kind == "childitems":
+            return [(st, ChildItemsV(owner, ls))]
+        return [(st, ListLV(ls))]
     return _old_call_value3(self, st, f, pos, kw)
 
 
